@@ -64,6 +64,12 @@ MI = L.index
 MD = D.get
 MC = D.clear
 
+# empty literals, never inserted into (their hash tables are allocated lazily)
+EL = []
+ED = {}
+ES = set()
+ED2 = dict()
+
 # nested combinations
 NL = [L, (D, S), R, [T]]
 ND = {"l": NL, "r": R, "t": (T, T), "k": {"deep": [D]}}
@@ -158,6 +164,9 @@ def m_setkey(x): x["zz"] = 1
 def m_setkey_existing(x): x[x.keys()[0]] = 1
 def m_ior_d(x):
     x |= {"zz": 1}
+def e_read(x, y):
+    return [len(x), 9 in x, bool(x), list(x), [e for e in x], str(x), x == y, x != y, sorted(x), any(x), json.encode(list(x))]
+def e_dget(x): return [x.get(9), x.get("a", 1), x.keys(), x.items(), x | {}]
 def m_add(x): x.add(99)
 def m_discard(x): x.discard(list(x)[0])
 def m_sremove(x): x.remove(list(x)[0])
@@ -349,6 +358,9 @@ func c05Do(e *c05Env, in *c05Inst, twin *c05Inst, op, kind string, variant int) 
 		panic("c05: no value for kind " + kind)
 	}
 	y := twin.val(kind, variant)
+	if variant%2 == 0 {
+		c05DoEmpty(e, &sb, in, twin, op, kind)
+	}
 	switch op {
 	case "index":
 		e.call(&sb, "index", h["index"], x)
@@ -800,6 +812,55 @@ func c05Generic(e *c05Env, helpers starlark.StringDict, tr *c05Tracer, run, name
 	if fn, ok := v.(*starlark.Function); ok && fn.NumParams() == 0 {
 		mark("call")
 		guard(func() { starlark.Call(e.th, fn, nil, nil) })
+	}
+}
+
+// c05DoEmpty repeats the operation on the published EMPTY literal of the kind (a dict / set whose table was
+// never allocated: a rejected insertion must not allocate it either, readers run concurrently).
+func c05DoEmpty(e *c05Env, sb *strings.Builder, in *c05Inst, twin *c05Inst, op, kind string) {
+	names := map[string][]string{"list": {"EL"}, "dict": {"ED", "ED2"}, "set": {"ES"}}
+	h := in.helpers
+	for _, name := range names[kind] {
+		x, y := in.g[name], twin.g[name]
+		switch op {
+		case "index", "iterate", "compare", "print", "encode", "hash":
+			e.call(sb, "empty-read:"+name, h["e_read"], x, y)
+			if d, ok := x.(*starlark.Dict); ok {
+				e.call(sb, "empty-get:"+name, h["e_dget"], x)
+				_, found, err := d.Get(starlark.String("a"))
+				c05W(sb, "Get", found, err)
+			}
+			if st, ok := x.(*starlark.Set); ok {
+				found, err := st.Has(starlark.MakeInt(1))
+				c05W(sb, "Has", found, err)
+			}
+		case "store":
+			l := starlark.NewList([]starlark.Value{x})
+			l.Freeze()
+			sb.WriteString(l.String() + ";")
+		case "mutate":
+			// on an empty value some mutators are no-ops that succeed (clear, discard ...): the outcome goes into the
+			// transcript, and a mutation is one that leaves the value non-empty
+			unchanged := func(label string, err error) {
+				c05W(sb, label, "ok", err)
+				if starlark.Len(x) != 0 {
+					e.mutated = append(e.mutated, label)
+					sb.WriteString(label + "=MUTATED;")
+				}
+			}
+			switch x := x.(type) {
+			case *starlark.List:
+				unchanged(name+".Append", x.Append(starlark.None))
+			case *starlark.Dict:
+				unchanged(name+".SetKey", x.SetKey(starlark.String("zz"), starlark.None))
+			case *starlark.Set:
+				unchanged(name+".Insert", x.Insert(starlark.MakeInt(99)))
+			}
+			for _, m := range c05Mutators[kind] {
+				_, err := starlark.Call(e.th, h[m], starlark.Tuple{x}, nil)
+				unchanged(name+"."+m, err)
+			}
+		}
 	}
 }
 
